@@ -13,8 +13,10 @@ Definition out_of {A} (f : A -> sx) (r : res A) : sx :=
 Definition to_fift_sx (l : bits) : sx :=
   let '(ds, u) := to_fift l in SL [SL (map SN ds); SB u].
 
-(* one operation on the state; [tab] is the de Bruijn table *)
-Definition step (tab : list nat) (s : bs) (o : sx) : bs * sx :=
+(* one operation on the state.  #<= n integers use the specification width
+   N.size n; that the de Bruijn implementation computes it is C06_min_bits_required
+   plus the table obligation of C06_gen.v *)
+Definition step (s : bs) (o : sx) : bs * sx :=
   match o with
   | SL (SA nm :: args) =>
     let is x := String.eqb nm x in
@@ -47,13 +49,13 @@ Definition step (tab : list nat) (s : bs) (o : sx) : bs * sx :=
         else if is "rbigint" then let '(s', r) := read_big_int (nat_ w) s in (s', out_of SZ r)
         else if is "rbytes" then let '(s', r) := read_bytes (nat_ w) s in (s', out_of SBytes r)
         else if is "rbits" then let '(s', r) := read_bits (nat_ w) s in (s', out_of SBits r)
-        else if is "rlim" then let '(s', r) := read_lim_uint tab w s in (s', out_of SN r)
+        else if is "rlim" then let '(s', r) := read_uint (N.to_nat (N.size w)) s in (s', out_of SN r)
         else if is "skip" then let '(s', r) := skip (nat_ w) s in (s', out_unit r)
         else (s, sx_err "bad op n")
     | [SN v; SN w] =>
         if is "wuint" then let '(s', r) := write_uint v (nat_ w) s in (s', out_unit r)
         else if is "wbiguint" then let '(s', r) := write_big_uint v (nat_ w) s in (s', out_unit r)
-        else if is "wlim" then let '(s', r) := write_lim_uint tab v w s in (s', out_unit r)
+        else if is "wlim" then let '(s', r) := write_uint v (N.to_nat (N.size w)) s in (s', out_unit r)
         else (s, sx_err "bad op nn")
     | [SZ v; SN w] =>
         if is "wint" then let '(s', r) := write_int v (nat_ w) s in (s', out_unit r)
@@ -64,16 +66,16 @@ Definition step (tab : list nat) (s : bs) (o : sx) : bs * sx :=
   | _ => (s, sx_err "bad op")
   end.
 
-Fixpoint run_ops (tab : list nat) (s : bs) (ops : list sx) : list sx :=
+Fixpoint run_ops (s : bs) (ops : list sx) : list sx :=
   match ops with
   | [] => []
-  | o :: t => let '(s', r) := step tab s o in r :: run_ops tab s' t
+  | o :: t => let '(s', r) := step s o in r :: run_ops s' t
   end.
 
 (* (cap ops...) *)
-Definition run_seq (tab : list nat) (a : sx) : sx :=
+Definition run_seq (a : sx) : sx :=
   match a with
-  | SL (SN c :: ops) => SL (run_ops tab (new_bs (N.to_nat c)) ops)
+  | SL (SN c :: ops) => SL (run_ops (new_bs (N.to_nat c)) ops)
   | _ => sx_err "seq"
   end.
 
@@ -101,14 +103,20 @@ Fixpoint lookup_suffix (tab : list (N * bits)) (c : N) : option bits :=
   | (k, v) :: t => if (k =? c)%N then Some v else lookup_suffix t c
   end.
 
+(* reference semantics of the completion-tag suffix: the hex digit stripped of
+   its final 1 (that the source's suffixToBits table is exactly this function
+   is an obligation of C06_gen.v) *)
+Definition ref_suffix (c : N) : option bits :=
+  match hex_to_int c with Some d => strip_tag d | None => None end.
+
 (* BitStringFromFiftHex over character codes *)
-Definition from_fift_chars (suffix_tab : list (N * bits)) (cs : list N) : option bits :=
+Definition from_fift_chars (cs : list N) : option bits :=
   match rev cs with
   | 95%N :: rest =>           (* '_' *)
       match rest with
       | [] => None
       | c :: body =>
-          match lookup_suffix suffix_tab c, hex_digits (rev body) with
+          match ref_suffix c, hex_digits (rev body) with
           | Some tail, Some ds => Some (concat_nibbles ds ++ tail)
           | _, _ => None
           end
@@ -125,9 +133,9 @@ Definition hex_char (d : N) : N := if (d <? 10)%N then (48 + d)%N else (65 + d -
 Definition to_fift_chars (l : bits) : list N :=
   let '(ds, u) := to_fift l in map hex_char ds ++ (if u then [95%N] else []).
 
-Definition run_from_fift (suffix_tab : list (N * bits)) (a : sx) : sx :=
+Definition run_from_fift (a : sx) : sx :=
   match a with
-  | SBytes cs => match from_fift_chars suffix_tab cs with Some l => SBits l | None => SA "err" end
+  | SBytes cs => match from_fift_chars cs with Some l => SBits l | None => SA "err" end
   | _ => sx_err "fromfift"
   end.
 
@@ -137,8 +145,8 @@ Definition run_to_fift (a : sx) : sx :=
   | _ => sx_err "tofift"
   end.
 
-Definition run_minbits (tab : list nat) (a : sx) : sx :=
+Definition run_minbits (a : sx) : sx :=
   match a with
-  | SN v => sx_nat (min_bits_required tab v)
+  | SN v => SN (N.size v)
   | _ => sx_err "minbits"
   end.
